@@ -638,15 +638,26 @@ func intRange(b *types.Basic) (lo, hi string, ok bool) {
 func (vc *VC) loadAt(st *State, p T, t types.Type) T {
 	if p.Loc != nil {
 		v := vc.hload(st, p.Loc.Key, vc.sortOf(t), p.Loc.Base)
-		if vc.heapImm[p.Loc.Key] && !vc.selfWritten[p.Loc.Key] {
-			// a reference read from memory that never changes after package
-			// initialisation existed before this call started
-			saved := st.mark
-			st.mark = "mark0"
-			vc.refFacts(st, v, t)
-			st.mark = saved
-		} else {
-			vc.refFacts(st, v, t)
+		vc.refFacts(st, v, t)
+		if vc.heapImm[p.Loc.Key] && !vc.selfWritten[p.Loc.Key] && st.mark != "mark0" && vc.noFacts == 0 {
+			// a reference read from a field that never changes after its
+			// object is constructed: if the object existed when this call
+			// started, so did what the field refers to.  (Objects built by
+			// callees during this call are younger; nothing is said of them.)
+			var r string
+			switch v.Sort {
+			case SInt:
+				if _, isPtr := t.Underlying().(*types.Pointer); isPtr {
+					r = app("root", v.S)
+				}
+			case SSlice:
+				r = app("root", app("sarr", v.S))
+			case SIface:
+				r = app("root", app("iref", v.S))
+			}
+			if r != "" {
+				vc.assume(st, app("=>", app("<=", app("root", p.Loc.Base), "mark0"), app("<=", r, "mark0")))
+			}
 		}
 		return v
 	}
